@@ -165,7 +165,6 @@ type vHarness struct {
 	segs      []vSeg // the current listing (grows when a segment completes)
 	cur       *vOracle
 	lease     int
-	prevLease int
 	curSeg    int
 	cursor    int
 	claimCall int
@@ -174,8 +173,12 @@ type vHarness struct {
 	mem       map[int]int64
 	early     []string
 	failRenew bool
-	lostSeen  bool
 	stopped   bool
+	ops       []vOp    // the part of the timeline not yet consumed
+	out       []string // result lines, in the order things happened
+	inFlight  bool     // a cycle ran and its line has not been emitted yet
+	done      chan struct{}
+	doneOnce  bool
 	// innerLoad / innerCommit are the checkpoint store under test (real noopStore or the
 	// in-memory store below).
 	innerLoad   func(tp int) (int64, error)
@@ -183,8 +186,10 @@ type vHarness struct {
 }
 
 func newVHarness(c *vCase) *vHarness {
-	h := &vHarness{c: c, lease: -1, curSeg: -1, sink: map[[2]int64]bool{}, mem: map[int]int64{}}
+	h := &vHarness{c: c, lease: -1, curSeg: -1, sink: map[[2]int64]bool{}, mem: map[int]int64{}, done: make(chan struct{})}
 	h.segs = append(h.segs, c.segs...)
+	h.ops = append(h.ops, c.ops...)
+	h.out = append(h.out, c.head...)
 	h.innerLoad = func(tp int) (int64, error) {
 		if v, ok := h.mem[tp]; ok {
 			return v, nil
@@ -209,12 +214,47 @@ func (h *vHarness) fault() vFault {
 	return h.cur.faults[h.curSeg]
 }
 
-// onList: a new polling cycle starts.  Returns whether listing fails.
+// onList: a new polling cycle starts (first call of every tick, on the loop's own goroutine).
+// The timeline is driven from here, so no wall-clock alignment is needed: the previous tick's
+// result line is emitted, pending `lost` / segment-completion directives are applied and the
+// next cycle's oracle is installed.  When the timeline is exhausted listing fails (nothing
+// happens any more) and `done` is closed.  Returns whether listing fails.
 func (h *vHarness) onList() bool {
 	h.mu.Lock()
 	defer h.mu.Unlock()
+	h.flushLocked()
 	h.cursor, h.curSeg, h.claimCall = 0, -1, 0
-	return h.cur != nil && h.cur.listFail
+	for len(h.ops) > 0 && (h.ops[0].lost || h.ops[0].addSeg != nil) {
+		op := h.ops[0]
+		h.ops = h.ops[1:]
+		if op.lost {
+			h.failRenew = true
+			continue
+		}
+		h.segs = append(h.segs, *op.addSeg)
+		h.out = append(h.out, "seg")
+	}
+	if len(h.ops) == 0 {
+		h.cur = nil
+		if !h.doneOnce {
+			h.doneOnce = true
+			close(h.done)
+		}
+		return true
+	}
+	o := h.ops[0].oracle
+	h.ops = h.ops[1:]
+	h.cur = &o
+	h.inFlight = true
+	return o.listFail
+}
+
+// flushLocked emits the line of the cycle that has run, if it was not emitted yet.
+func (h *vHarness) flushLocked() {
+	if h.inFlight {
+		h.inFlight = false
+		h.out = append(h.out, h.lineLocked())
+	}
 }
 
 func (h *vHarness) onClaim(tp int) error {
@@ -241,12 +281,14 @@ func (h *vHarness) onRenew() error {
 	return nil
 }
 
+// onRelease: the loop gave the lease up (a renewal failed).  It runs on the loop's goroutine
+// after the cycle in flight, so that cycle's line comes first, then `lost`.
 func (h *vHarness) onRelease() {
 	h.mu.Lock()
 	defer h.mu.Unlock()
 	if !h.stopped {
-		h.lostSeen = true
-		h.prevLease = h.lease
+		h.flushLocked()
+		h.out = append(h.out, "lost")
 	}
 	h.lease = -1
 }
@@ -322,15 +364,10 @@ func (h *vHarness) onCommit(tp int, off int64) error {
 	return h.innerCommit(tp, off)
 }
 
-// line reports the tick that just ran; when the lease was lost after it (lost = true) the
-// lease shown is the one the cycle ran with.
-func (h *vHarness) line(lost bool) string {
-	h.mu.Lock()
-	defer h.mu.Unlock()
+// lineLocked reports the tick that just ran.
+func (h *vHarness) lineLocked() string {
 	lease := "-"
-	if lost && h.prevLease >= 0 {
-		lease = strconv.Itoa(h.prevLease)
-	} else if h.lease >= 0 {
+	if h.lease >= 0 {
 		lease = strconv.Itoa(h.lease)
 	}
 	wrote := "-"
@@ -368,54 +405,25 @@ func (h *vHarness) line(lost bool) string {
 	return fmt.Sprintf("cycle lease=%s wrote=%s cp=%s early=%s", lease, wrote, cp, early)
 }
 
-// vDrive runs the timeline of one case against a processor started at t0.  `poll` is the
-// loop's tick period (5 s, so that the 10 s renewal timer only fires at tick instants); the
-// oracle of tick i is installed at t0+(i-1/2)·poll and the result sampled at t0+(i+1/2)·poll.
-// A failing renewal reports one second after its tick, i.e. after that tick's cycle and before
-// the sample, so `lost` is printed after the cycle line of the tick it followed.
-// Works on the real clock and inside a testing/synctest bubble (settle = synctest.Wait).
-func vDrive(h *vHarness, t0 time.Time, poll time.Duration, settle func()) []string {
-	var out []string
-	out = append(out, h.c.head...)
-	tick := 0
-	until := func(d time.Duration) {
-		if w := time.Until(t0.Add(d)); w > 0 {
-			time.Sleep(w)
-		}
-		settle()
-	}
-	until(poll / 2)
+// vDrive waits until the processor has consumed the whole timeline (the fakes drive it from
+// inside the loop, see onList) or the budget of (cycles+3) tick periods is exhausted, and returns
+// the result lines.  Works on the real clock and inside a testing/synctest bubble.
+func vDrive(h *vHarness, poll time.Duration) []string {
+	cycles := 0
 	for _, op := range h.c.ops {
-		if op.lost {
-			h.mu.Lock()
-			h.failRenew = true
-			h.mu.Unlock()
-			continue
+		if !op.lost && op.addSeg == nil {
+			cycles++
 		}
-		if op.addSeg != nil {
-			h.mu.Lock()
-			h.segs = append(h.segs, *op.addSeg)
-			h.mu.Unlock()
-			out = append(out, "seg")
-			continue
-		}
-		o := op.oracle
-		h.mu.Lock()
-		h.cur = &o
-		h.mu.Unlock()
-		tick++
-		until(time.Duration(tick)*poll + poll/2)
-		h.mu.Lock()
-		lost := h.lostSeen
-		h.lostSeen = false
-		h.mu.Unlock()
-		out = append(out, h.line(lost))
-		if lost {
-			out = append(out, "lost")
-		}
+	}
+	timer := time.NewTimer(time.Duration(cycles+3) * poll)
+	defer timer.Stop()
+	select {
+	case <-h.done:
+	case <-timer.C:
 	}
 	h.mu.Lock()
+	defer h.mu.Unlock()
+	h.flushLocked()
 	h.stopped = true
-	h.mu.Unlock()
-	return out
+	return append([]string(nil), h.out...)
 }
